@@ -6,6 +6,16 @@ ALL = ["C%02d" % i for i in range(1, 21)]
 
 # id -> dict(level, text, note, technique, design, engine, thorough=True)
 CHECKS = {
+ "C08": dict(level="model_checking",
+  text="Two halves on the real code, both backends. (1) Schedule exploration: all interleavings (preemption bound 2 quick / 3 thorough) of a refresh (ticker path and config path) with 1-2 reader threads doing 2-4 lookups of oldOnly/newOnly/common/neither probes; oracle on the step-stamped call/return history: never an error, common always revoked, neither never, and a single switch point (no OLD answer starting after a NEW answer returned). (2) Explicit-state BFS over refresh histories (2 successful versions + 20 failure kinds: refused, HTTP error page, garbage, empty, 7 truncations, bad signature, unknown signer, injected staging-store faults at create/locations/start/insert#k/extmeta/sigcert) to depth 2 (quick) / 3 (thorough); after every event all probes must equal the vector of the last accepted version and no temp artefacts may remain.",
+  note="Faults in the directory swap itself are judged under C09/C12. The staging faults are injected through a wrapper around Repository.Factory (exported field).",
+  technique="stateless schedule exploration with preemption bounding + explicit-state BFS over fault/event histories, both on the implementation",
+  design="DESIGN.md §4 C08", engine="vsched DFS + fw.BFS"),
+ "C09": dict(level="model_checking",
+  text="Exhaustive single-fault enumeration at lookup time (database handle closed, injected Db.Get I/O error, stored record replaced by empty / 1 byte / every truncation / flipped tag / other type) on both backends for listed and unlisted probes, plus schedule exploration of handshake || Cleanup and handshake || refresh-whose-directory-swap-fails (fault injected at the os.Rename effect point). Oracle: a lookup hit by a storage failure never answers 'not revoked' and never panics.",
+  note="A lookup starting after Cleanup returned is not judged. One known finding (entry dropped after a failed swap) is listed in known_findings.jsonl.",
+  technique="exhaustive fault-point enumeration + stateless schedule exploration with fault injection on the implementation",
+  design="DESIGN.md §4 C09", engine="vsched DFS + effect-point fault injection"),
  "C02": dict(level="exploration",
   text="All responder lists of length 0..3 over 8 behaviours (good, revoked, unknown, HTTP 500 + garbage, connection refused, non-OCSP body, ldap:// URL, https answering good) x aia_strict x default cache duration {0, 10m} x nextUpdate {absent, +1h} x chain shape (same / other key type, with / without AKI), each a 2-event history (lookup; all responders down; lookup) on the real OCSPRevocationChecker with a scripted transport, compared with a boring reference model (first authentic answer in list order decides; strict rule; cache rule).",
   note="OCSP status 'unknown' and strict-mode denials that the reference would accept are not judged (the statement is one-directional there). Mode composition is C03's business.",
